@@ -9894,6 +9894,12 @@ class Parser:
         options = []
         while self._curr and not self._match(TokenType.R_PAREN, advance=False):
             option = self._parse_var(any_token=True)
+            if not option:
+                # a reserved token (e.g. "}" or ";") is not consumed by _parse_var: without this
+                # the loop would spin forever under the non-raising error levels
+                self.raise_error("Expected a COPY parameter")
+                break
+
             prev = self._prev.text.upper()
 
             # Different dialects might separate options and values by white space, "=" and "AS"
